@@ -35,10 +35,33 @@ def design(chk, maxlen, maxdrop, halves):
         raise core.MachineryError("ScanRule=asis expected to violate C16_Admissible")
 
 
-def _rows(m, drops):
+REDISPLAY = ["Inch", "Yard", "Meter", "Centimeter", "Kilometer", "Foot", "Millimeter"]
+
+
+def _redisplay(m, rows, salt):
+    """display-history perturbation: the caller has looked at some rows in other units (`q << unit` re-labels the quantity in
+    place; the magnitude - raw_value - is untouched, so the exact cases stay exact)"""
     U = m.Unit
-    return [impl.make_row(time=float(k), distance=U.Foot(float(k)), target_drop=U.Foot(float(v)), flag=8)
+    for k, r in enumerate(rows):
+        if (k + salt) % 3 == 0:
+            continue
+        un = getattr(U, REDISPLAY[(k * 2 + salt) % len(REDISPLAY)])
+        r.target_drop << un
+        if (k + salt) % 2:
+            r.distance << getattr(U, REDISPLAY[(k + salt + 3) % len(REDISPLAY)])
+            r.look_distance << getattr(U, REDISPLAY[(k + salt + 4) % len(REDISPLAY)])
+            r.height << un
+
+
+def _rows(m, drops, salt=0):
+    U = m.Unit
+    # built in feet or in inches (both exact), then partly re-displayed
+    rows = [impl.make_row(time=float(k), distance=U.Foot(float(k)) if (k + salt) % 2 else U.Inch(12.0 * k),
+                          target_drop=U.Inch(12.0 * v) if (k + salt) % 2 else U.Foot(float(v)), flag=8)
             for k, v in enumerate(drops)]
+    if salt % 2:
+        _redisplay(m, rows, salt)
+    return rows
 
 
 def replay_spec_cases(chk, cases):
@@ -49,9 +72,11 @@ def replay_spec_cases(chk, cases):
     for c in cases:
         d, t, h, adm = c["d"], c["t"], c["h"], {tuple(x) for x in c["adm"]}
         n = len(d)
-        rows = _rows(m, d)
+        salt = (sum(d) + 3 * t + h + n) % 4
+        rows = _rows(m, d, salt)
         hr = m.HitResult(shot, rows, True)
-        height = U.Foot(float(h))      # half height = h/2 ft; spec half is doubled like the drops
+        height = U.Foot(float(h)) if salt < 2 else U.Inch(12.0 * h)     # half height = h/2 ft; spec half is doubled like the drops
+        chk.stratum("rows_redisplayed" if salt % 2 else "rows_as_built")
         if t == 0:
             ranges = [("beyond", n - 1 + 0.5), ("beyond", float(n + 3))]
         else:
@@ -117,6 +142,9 @@ def real_traces(chk, n_shots, rng):
         traj = hr.trajectory
         if len(traj) < 3:
             continue
+        if s % 2:
+            _redisplay(m, traj, s)      # the caller printed part of the table in other units before asking
+            chk.stratum("real_rows_redisplayed")
         drops = [r.target_drop.raw_value for r in traj]
         dists = [r.distance.raw_value for r in traj]
         j = rng.randrange(1, len(dists))
@@ -188,7 +216,7 @@ def run(chk: core.Check, replay=None) -> None:
         info = raw[tid]
         chk.violation(clause, {"source": "real", "rising_branch": info["rising_branch"]}, info)
     chk.sample({"real_call": next(iter(raw.values()))})
-    chk.require_strata(["beyond", "rising", "on_grid", "off_grid", "monotone_pairs", "real_rising", "real_falling", "real_beyond"])
+    chk.require_strata(["beyond", "rising", "on_grid", "off_grid", "monotone_pairs", "real_rising", "real_falling", "real_beyond", "rows_redisplayed", "rows_as_built", "real_rows_redisplayed"])
     chk.rule.append(f"every drop sequence of length<=%d over 0..%d x target row x half-height in %s (TLC Gen_DangerSpace), on- and "
                     f"off-grid ranges; plus seeded real extra-data trajectories x targets x heights; non-trivial = >=3 rows and "
                     f"target inside the trajectory" % (maxlen, maxdrop, halves))
